@@ -110,6 +110,15 @@ func (g *fsGen) path() string {
 	return p
 }
 
+// noRoot: in histories compared with the kernel the root is never the operand of remove / rename
+// (the scratch directory of the oracle is not a file-system root).
+func (g *fsGen) noRoot(p string) string {
+	if g.opts.kernel && (p == "/" || p == "") {
+		return "/" + lib.Pick(g.r, fsNames)
+	}
+	return p
+}
+
 func lastElem(p string) string {
 	i := strings.LastIndex(p, "/")
 	return p[i+1:]
@@ -202,18 +211,21 @@ func (g *fsGen) next() string {
 	case 6:
 		return pre + "create " + h(g.path())
 	case 7, 8:
-		return pre + "remove " + h(g.path())
+		return pre + "remove " + h(g.noRoot(g.path()))
 	case 9:
-		return pre + "removeall " + h(g.path())
+		return pre + "removeall " + h(g.noRoot(g.path()))
 	case 10, 11, 12:
-		p := g.path()
-		return pre + "rename " + h(p) + " " + h(g.related(p))
+		p := g.noRoot(g.path())
+		return pre + "rename " + h(p) + " " + h(g.noRoot(g.related(p)))
 	case 13, 14:
 		p := g.path()
 		return pre + "link " + h(p) + " " + h(g.related(p))
 	case 15:
 		return pre + fmt.Sprintf("truncate %s %d", h(g.path()), lib.Pick(r, []int{0, 1, 3, 20, -1}))
 	case 16:
+		if g.opts.kernel { // set-id bits have kernel rules of their own (inheritance, cleared by chown): not part of C01
+			return pre + fmt.Sprintf("chmod %s %d", h(g.path()), lib.Pick(r, createPerms))
+		}
 		return pre + fmt.Sprintf("chmod %s %d", h(g.path()), lib.Pick(r, perms))
 	case 17:
 		if g.opts.users {
@@ -266,7 +278,7 @@ func (g *fsGen) fileOp() string {
 	case 5:
 		return fmt.Sprintf("writeat %s %d", lib.Hex(lib.Pick(r, []string{"", "Y", "777"})), lib.Pick(r, offs))
 	case 6, 7:
-		return fmt.Sprintf("seek %d %d", lib.Pick(r, offs), lib.Pick(r, []int{0, 0, 1, 2, 2, 3}))
+		return fmt.Sprintf("seek %d %d", lib.Pick(r, offs), lib.Pick(r, []int{0, 0, 1, 2, 2, 5}))
 	case 8:
 		return fmt.Sprintf("truncate %d", lib.Pick(r, []int{-1, 0, 1, 4, 12, 25}))
 	case 9:
@@ -274,6 +286,9 @@ func (g *fsGen) fileOp() string {
 	case 10:
 		return lib.Pick(r, []string{"sync", "chdir"})
 	case 11:
+		if g.opts.kernel {
+			return fmt.Sprintf("chmod %d", lib.Pick(r, createPerms))
+		}
 		return fmt.Sprintf("chmod %d", lib.Pick(r, perms))
 	case 12:
 		return fmt.Sprintf("chown %d %d", lib.Pick(r, []int{0, 1001}), lib.Pick(r, []int{0, 1001}))
